@@ -353,8 +353,14 @@ func (ip *FileIP) WriteAuditLogToFile() {
 	auditInfoJSON, jsonErr := json.MarshalIndent(auditInfo, "", "    ")
 	CheckWithMsg(jsonErr, "Could not marshall JSON")
 	ip.createDirs("")
-	writeErr := ioutil.WriteFile(ip.AuditFilePath(), auditInfoJSON, 0644)
+	// Write to a temporary file and rename it into place, so that an
+	// interrupted run can never leave a truncated audit file behind for a
+	// file that is already finalized (such as when MapToTags re-writes it)
+	tmpAuditPath := ip.AuditFilePath() + ".tmp"
+	writeErr := ioutil.WriteFile(tmpAuditPath, auditInfoJSON, 0644)
 	CheckWithMsg(writeErr, "Could not write audit file: "+ip.Path())
+	renameErr := os.Rename(tmpAuditPath, ip.AuditFilePath())
+	CheckWithMsg(renameErr, "Could not move audit file into place: "+ip.Path())
 }
 
 // AuditInfo returns the AuditInfo struct for the FileIP
